@@ -33,6 +33,17 @@ type c18Gen struct {
 	// forceSlot, when non-zero, makes the next generated command target this
 	// slot / its active task (goal-directed "planner" mode).
 	forceSlot uint32
+	// forceNode, when non-zero, makes node-addressed generators target this node.
+	forceNode uint64
+	// dependent run: the next runLeft commands all touch one entity (a node, a
+	// slot with its task, the controller voter set, the hash-slot table, the
+	// scheduled-backup singleton, the OpsMCP singleton), so that commands whose
+	// guards depend on each other's effects are adjacent in the log and batch
+	// partitions place them both inside one batch and across a batch boundary.
+	runLeft int
+	runKind string
+	runSlot uint32
+	runNode uint64
 }
 
 func newC18Gen(rng *rand.Rand) *c18Gen {
@@ -200,6 +211,9 @@ func (g *c18Gen) genUpsertNode(st state.ClusterState) command.Command {
 	if g.p(4) {
 		id = 0
 	}
+	if g.forceNode != 0 {
+		id = g.forceNode
+	}
 	node, ok := c18FindNode(st, id)
 	if !ok {
 		node = g.baseNode(id, g.p(30))
@@ -282,6 +296,9 @@ func (g *c18Gen) genPromote(st state.ClusterState) command.Command {
 		voters = append(voters, c.NodeID)
 	}
 	target := uint64(1 + g.rng.IntN(int(g.maxNode)))
+	if g.forceNode != 0 {
+		target = g.forceNode
+	}
 	node, _ := c18FindNode(st, target)
 	observed := append([]uint64(nil), voters...)
 	if !c18Contains(observed, target) {
@@ -891,7 +908,11 @@ func (g *c18Gen) genProgress(st state.ClusterState) command.Command {
 }
 
 func (g *c18Gen) genHealth(st state.ClusterState) command.Command {
-	h := &state.NodeHealthReport{NodeID: uint64(1 + g.rng.IntN(int(g.maxNode))), Status: []state.NodeStatus{state.NodeStatusAlive, state.NodeStatusSuspect, state.NodeStatusDown}[g.rng.IntN(3)], RuntimeReady: g.p(70), ObservedControlRevision: st.Revision, ReportSeq: uint64(g.rng.IntN(4)), ReportedAtUnixMilli: int64(g.rng.IntN(3))}
+	hid := uint64(1 + g.rng.IntN(int(g.maxNode)))
+	if g.forceNode != 0 {
+		hid = g.forceNode
+	}
+	h := &state.NodeHealthReport{NodeID: hid, Status: []state.NodeStatus{state.NodeStatusAlive, state.NodeStatusSuspect, state.NodeStatusDown}[g.rng.IntN(3)], RuntimeReady: g.p(70), ObservedControlRevision: st.Revision, ReportSeq: uint64(g.rng.IntN(4)), ReportedAtUnixMilli: int64(g.rng.IntN(3))}
 	switch g.rng.IntN(16) {
 	case 0:
 		h.NodeID = 0
@@ -927,11 +948,22 @@ func (g *c18Gen) next(st state.ClusterState) command.Command {
 		return g.pool[g.rng.IntN(len(g.pool))]
 	}
 	var c command.Command
+	if st.Revision != 0 && g.runLeft == 0 && g.p(16) {
+		g.startRun(st)
+	}
 	if st.Revision == 0 {
+		g.runLeft = 0
 		if g.p(70) {
 			c = g.genInit(st)
 		} else {
 			c = g.pickKind(st)
+		}
+	} else if g.runLeft > 0 {
+		g.runLeft--
+		c = g.runCommand(st)
+		g.flavours["dependent_run_commands"]++
+		if g.runLeft == 0 {
+			g.runKind, g.runSlot, g.runNode = "", 0, 0
 		}
 	} else {
 		switch {
@@ -950,6 +982,114 @@ func (g *c18Gen) next(st state.ClusterState) command.Command {
 	return c
 }
 
+var c18RunKinds = []string{"node", "controllers", "hashslots", "backup", "opsmcp", "slot", "slot", "slot", "health", "init"}
+
+func (g *c18Gen) startRun(st state.ClusterState) {
+	g.runKind = c18RunKinds[g.rng.IntN(len(c18RunKinds))]
+	g.runLeft = 2 + g.rng.IntN(3)
+	g.runNode = uint64(1 + g.rng.IntN(int(g.maxNode)))
+	g.runSlot = 0
+	if g.runKind == "slot" && st.Config.SlotCount > 0 {
+		g.runSlot = uint32(1 + g.rng.IntN(int(st.Config.SlotCount)))
+	}
+	g.flavours["dependent_runs."+g.runKind]++
+}
+
+// runCommand emits one command of the current dependent run.
+func (g *c18Gen) runCommand(st state.ClusterState) command.Command {
+	switch g.runKind {
+	case "node":
+		// one node: its record, its controller-voter promotion, its health
+		g.forceNode = g.runNode
+		defer func() { g.forceNode = 0 }()
+		switch x := g.rng.IntN(10); {
+		case x < 6:
+			return g.genUpsertNode(st)
+		case x < 8:
+			return g.genPromote(st)
+		default:
+			return g.genHealth(st)
+		}
+	case "controllers":
+		g.forceNode = g.runNode
+		defer func() { g.forceNode = 0 }()
+		switch x := g.rng.IntN(10); {
+		case x < 5:
+			return g.genUpdateControllers(st)
+		case x < 8:
+			return g.genPromote(st)
+		default:
+			return g.genUpsertNode(st)
+		}
+	case "hashslots":
+		return g.genHashSlots(st)
+	case "backup":
+		// the backup singleton, interleaved with the task set it is validated against
+		if g.p(25) {
+			return g.planned(st)
+		}
+		return g.genBackup(st)
+	case "opsmcp":
+		return g.genOpsMCPRun(st)
+	case "health":
+		g.forceNode = g.runNode
+		defer func() { g.forceNode = 0 }()
+		if g.p(25) {
+			return g.genUpsertNode(st)
+		}
+		return g.genHealth(st)
+	case "init":
+		return g.genInit(st)
+	default: // one slot: assignment, its task and every task command
+		if g.p(80) {
+			return g.planned(st)
+		}
+		g.forceSlot = g.runSlot
+		defer func() { g.forceSlot = 0 }()
+		switch g.rng.IntN(7) {
+		case 0:
+			return g.genAssignTask(st)
+		case 1:
+			return g.genMoveTask(st)
+		case 2:
+			return g.genAdvance(st)
+		case 3:
+			return g.genCommit(st)
+		case 4:
+			return g.genTaskResult(st, command.KindCompleteTask)
+		case 5:
+			return g.genTaskResult(st, command.KindFailTask)
+		default:
+			return g.genProgress(st)
+		}
+	}
+}
+
+// genOpsMCPRun emits mostly well-formed OpsMCP replacements over two candidate
+// owners: enable / stop / hand over / rotate credentials. Which of them is
+// accepted depends on the OpsMCP state left by the previous command (owner may
+// not change while enabled).
+func (g *c18Gen) genOpsMCPRun(st state.ClusterState) command.Command {
+	var active []uint64
+	for _, n := range st.Nodes {
+		if n.JoinState == state.NodeJoinStateActive {
+			active = append(active, n.NodeID)
+		}
+	}
+	if len(active) == 0 || g.p(12) {
+		return g.genOpsMCP(st)
+	}
+	owner := active[g.rng.IntN(len(active))]
+	if st.OpsMCP != nil && st.OpsMCP.OwnerNodeID != 0 && g.p(45) {
+		owner = st.OpsMCP.OwnerNodeID
+	}
+	ops := state.OpsMCPState{Enabled: g.p(55), OwnerNodeID: owner, Credentials: []state.OpsMCPCredential{{ID: fmt.Sprintf("k%d", g.rng.IntN(2)), DigestSHA256: c18Hex64(byte(g.rng.IntN(2))), CreatedAtUnixMillis: 1}}}
+	if !ops.Enabled && g.p(30) {
+		ops.OwnerNodeID = 0
+	}
+	return command.Command{Kind: command.KindReplaceOpsMCPState, IssuedAt: g.issuedAt(), ExpectedRevision: g.expRev(st), OpsMCP: &ops}
+}
+
 // planned emits the command a well-behaved planner/executor would propose
 // next for one PRNG slot (bootstrap -> complete, move: open -> add -> promote ->
 // remove -> commit, leader transfer -> complete), so that deep workflow states
@@ -961,6 +1101,9 @@ func (g *c18Gen) planned(st state.ClusterState) command.Command {
 		return g.pickKind(st)
 	}
 	g.forceSlot = uint32(1 + g.rng.IntN(slots))
+	if g.runSlot != 0 {
+		g.forceSlot = g.runSlot
+	}
 	defer func() { g.forceSlot = 0 }()
 	g.flavours["planned"]++
 	_, has := c18Assignment(st, g.forceSlot)
